@@ -129,7 +129,7 @@ def collect_bindings(fnnode):
 
 
 class Frame:
-    def __init__(self, fn, params=None, concrete=None, depth=0, selfval=None):
+    def __init__(self, fn, params=None, concrete=None, depth=0, selfval=None, path=None):
         self.fn = fn
         self.params = params or {}
         self.concrete = concrete
@@ -138,6 +138,20 @@ class Frame:
         self.memo = {}
         self.busy = set()
         self.selfval = selfval
+        self.path = None
+        if path is not None:
+            self.set_path(path)
+
+    def set_path(self, path):
+        """Restrict reaching definitions to the statements of one acyclic path (idioms.Path)."""
+        ids = set()
+        for s_ in path.stmts:
+            node = getattr(s_, 'node', s_)
+            ids.add(id(node))
+        if path.end is not None:
+            ids.add(id(path.end))
+        self.path = ids
+        self.memo = {}
 
 
 class AbsInt:
@@ -351,6 +365,8 @@ class AbsInt:
             if isinstance(b.stmt, comps) and self._contains(b.stmt, use):
                 return [b], False
         cands = [b for b in binds if not isinstance(b.stmt, comps)]
+        if fr.path is not None:
+            cands = [b for b in cands if id(b.stmt) in fr.path or isinstance(b.stmt, (ast.FunctionDef, ast.ExceptHandler))]
         before = sorted([b for b in cands if pos(b.stmt) < pos(use)], key=lambda b: pos(b.stmt), reverse=True)
         killed = False
         for b in before:
@@ -373,6 +389,10 @@ class AbsInt:
             bchain = block_chain(b.stmt, root)
             if b.kind in ('assign', 'unpack', 'def', 'walrus', 'aug') \
                     and len(bchain) <= len(use_chain) and use_chain[:len(bchain)] == bchain:
+                killed = True
+                break
+            if fr.path is not None and b.kind in ('assign', 'unpack', 'def', 'walrus', 'aug'):
+                # along one acyclic path the latest preceding binding is the only one that reaches
                 killed = True
                 break
         for b in cands:
